@@ -858,7 +858,7 @@ end dict
 
 namespace Example
 def arr : ArrSpec := { childTag := (0, 15), pChildTag := (0, 15), sizeAttr := some (0, 16), pSizeAttr := (0, 16),
-                       minLen := 1, maxLen := 3, idxPos := some 2, idxLabels := [] }
+                       minLen := 1, maxLen := 3, idxPos := some 2, idxLabels := [], idxLimit := 3 }
 def farr : FArrSpec := { prim := 4, childTag := (0, 41), pChildTag := (0, 41), sizeAttr := (0, 16), pSizeAttr := (0, 16),
                          idxAttr := (0, 42), base := 1 }
 /-- `<.. order1="n-1"><Coef exponent1="i">..` -/
